@@ -5,5 +5,6 @@ func init() {
 		"schedules are sampled (generated programs, perturbations and exporter latencies, each program run twice under the race detector), not enumerated",
 		"completeness is asserted only for ForceFlush/Shutdown calls that returned nil and do not overlap a Shutdown call",
 		"a never-exported record is accepted only if at least <queue size> other records could have been queued after it before the next successful flush",
+		"the configured queue and batch sizes are derived from the documented precedence (option >= 1, else decimal-integer environment value >= 1, else default 2048 / 512); where the documentation has two readings (option value < 1 next to an environment value; an environment value only a lenient parser accepts; out-of-range integers) the weaker bound is used",
 	))
 }
